@@ -72,6 +72,13 @@ def gen(seed, tier="quick"):
         elif x < 0.88:
             ops.append({"op": "import", "module": r.choice(MODULES)})
             imported_any = True
+            if r.random() < 0.1:
+                # the same, from 2-3 threads at once (hooks do not change meanwhile, so the expected set is schedule-independent)
+                from .c18 import gen_par
+
+                par = gen_par(r, forest, seed, len(ops))
+                if par is not None:
+                    ops[-1] = par
         elif x < 0.95:
             ops.append({"op": "call_lazy", "module": r.choice(MODULES)})
         else:
